@@ -172,9 +172,9 @@ def grd1_replay(P, R, L):
             lo, ro = c.lhs_origins(), c.rhs_origins()
             is_min = origin_pred_call("versioning::version_set::VersionSet::get_curr_wal_number")
             if is_min(ro) and not is_min(lo):
-                edges += c.edges_where("ge", lambda os: not is_min(os), is_min)
+                edges += c.edges_where("ge", lambda os: not is_min(os), is_min, exact=True)
             elif is_min(lo) and not is_min(ro):
-                edges += c.edges_where("ge", lambda os: not is_min(os), is_min)
+                edges += c.edges_where("ge", lambda os: not is_min(os), is_min, exact=True)
         ok = bool(pushes) and bool(edges) and all(b.must_pass(p.bb, through_edges=edges) for p in pushes)
         R.check("GRD-1", RECOVER_LOGS + "|replay-wals-at-or-after-manifest-wal", ok, pushes[0].where() if pushes else K.where(b),
                 "a WAL number is queued only on the edge where number >= get_curr_wal_number()",
